@@ -66,6 +66,12 @@ class BuiltinMixin:
             self.partial(st, z3.Not(sym.opt_is_none(v)), "TypeError", node)
             v = sym.opt_val(v)
             t = v.t
+        if isinstance(t, TRef):
+            # len(obj): the class's __len__ (contracted repo method or assumed external one)
+            out = []
+            for s2, m in self.getattr(v, "__len__", st, node):
+                out.extend(self.apply(m, [], {}, s2, node))
+            return out
         if is_strlike(t):
             if v.const is not None:
                 return mk_const(len(v.const.v))
